@@ -39,6 +39,8 @@ CONSTANTS PatSet,       \* set of pattern names to explore
           Mismatches,   \* subset of {"none","prologue","psk","psk_max","name","rs_i","rs_r","rs_i_bit","rs_r_bit"}: one context item differs (C08)
           ExtraRs,      \* subset of BOOLEAN: also hand the peer's static key to a party the pattern only TRANSMITS it to (C17)
           ExtraPsks,    \* subset of BOOLEAN: also supply keys in psk slots the pattern does not use (must change nothing: C12)
+          EarlySplit,   \* BOOLEAN: also call dangerously_get_raw_split() once at any earlier point of the handshake (a pure query: the
+                        \* rest of the session must be byte-identical to a session without it)
           Hfs,          \* BOOLEAN: the name carries the hfs modifier and a KEM (interactive patterns; hfs build of the crate)
           OddNames,     \* BOOLEAN: name the protocol with a non-canonical spelling of its psk numerals (psk03 for psk3)
           Emit          \* BOOLEAN: print scenarios
@@ -135,7 +137,7 @@ Init ==
   /\ pc = 0
   /\ wire = <<>>
   /\ sent = <<>>
-  /\ budget = [f |-> FaultBudget, t |-> TamperBudget]
+  /\ budget = [f |-> FaultBudget, t |-> TamperBudget, s |-> IF EarlySplit THEN 1 ELSE 0]
   /\ status = "run"
 
 N == NumMsgs(prm.pp.pat)
@@ -279,6 +281,13 @@ Overwrite ==
   /\ SetPsk(prm.ow[1], prm.ow[2], OwTarget)
   /\ UNCHANGED <<pc, prm, wire, sent, budget, status>>
 
+(* ---- a query in the middle of the handshake ----------------------------- *)
+EarlyRawSplit ==
+  /\ ~Done /\ budget.s > 0 /\ InHandshake
+  /\ \E id \in {"I", "R"} : RawSplit(id)
+  /\ budget' = [budget EXCEPT !.s = 0]
+  /\ UNCHANGED <<pc, prm, wire, sent, status>>
+
 (* ---- failing calls ------------------------------------------------------ *)
 (* Each disjunct performs a call that the MODEL says fails (guard: the     *)
 (* result is an error); the script position does not move.                 *)
@@ -359,7 +368,7 @@ Tamper ==
   /\ Log(Step("adv", "-", [msg |-> wire', orig |-> wire], [res |-> "ok"]))
   /\ UNCHANGED <<ep, aeadLog, pc, prm, sent>>
 
-Next == (status = "run" /\ Genuine) \/ FixPsk \/ BadFixPsk \/ Overwrite \/ Fault \/ Tamper
+Next == (status = "run" /\ Genuine) \/ FixPsk \/ BadFixPsk \/ Overwrite \/ Fault \/ Tamper \/ EarlyRawSplit
         \/ (status = "tampered" /\ ~Done /\ Genuine)
 
 Spec == Init /\ [][Next]_mcvars
@@ -424,7 +433,7 @@ RemoteStaticCorrect ==
 
 (* the raw split both sides report agrees (C01/C02) *)
 RawSplitAgrees ==
-  Honest =>
+  (Honest /\ ~EarlySplit) =>
   \A i, j \in Steps({"raw_split"}) : hist[i].exp.k1 = hist[j].exp.k1 /\ hist[i].exp.k2 = hist[j].exp.k2
 
 (* C03 at model level: after an alteration the two parties never both finish without an error *)
